@@ -1,5 +1,6 @@
 """C07 -- namespace and subpath structure cannot be forged or climb upwards."""
 from .std import *
+from mirsym.interp import Interp
 
 ID = 'C07'
 PROGS = ['default']
@@ -142,9 +143,42 @@ def h_other(L, T, parts):
     return 'accepted'
 
 
+def h_after(L, T, first, second):
+    """the segments reported for an input are the pieces of *that* input: parsing it right after another (possibly rejected) input on the
+    same thread gives what parsing it alone gives"""
+    I = L.I
+    f, _ = template_bytes(L, first)
+    L.assume_utf8(f)
+    s2 = list(second.encode())
+    req = {'op': 'parse_after', 'T': KINDS[T][1], 'first': SymStr(f), 's': SymStr(s2)}
+    L.expect_native(req, {})
+    try:
+        r1 = from_str(I, T, f)
+        r2 = from_str(I, T, s2)
+        alone = from_str(Interp(I.prog, L.ctx), T, s2)
+    except Panic as e:
+        L.fail('panic: %s' % e.msg)
+        return 'panic'
+    tag = 'accepted' if r1.variant == 'Ok' else 'rejected:' + err_name(r1.fields[0])
+    if r2.variant != alone.variant:
+        L.fail('an input is accepted or refused depending on what was parsed before it')
+        return tag
+    if r2.variant == 'Ok':
+        a2, a0 = accessors(I, T, r2.fields[0]), accessors(I, T, alone.fields[0])
+        L.expect_native(req, {'after': {'ok': obs_expect(a2)}})
+        if repr(a2) != repr(a0):
+            L.fail('the segments reported for an input depend on what was parsed before it')
+    return tag
+
+
 def queries(tier):
     th = tier == 'thorough'
     qs = parse_family(tier, [chk_structure], depth=0)
+    for T in ('String', 'Purl'):
+        ty = 't' if T == 'String' else 'npm'
+        for first in (['pkg:%s/a/' % ty, ('hole', 'h', 3), '/n'], ['pkg:%s/n#a/' % ty, ('hole', 'h', 3)], ['pkg:%s/n?k=' % ty, ('hole', 'h', 3), '#a/b']):
+            qs.append(Query('%s after %s' % (T, show_template(first)), h_after, {'T': T, 'first': first, 'second': 'pkg:%s/x/y/n@1#p/q' % ty},
+                            bound='%s parsed first, then pkg:%s/x/y/n@1#p/q on the same thread' % (show_template(first), ty)))
     # escapes in the name / version / qualifier value of every type, with and without an escaped '@' in front
     for T, tys in (('String', ['t']), ('Purl', ['cargo', 'gem', 'golang', 'npm', 'nuget', 'pypi'])):
         for ty in tys:
@@ -176,6 +210,10 @@ def native_request(v):
 def confirm(v, resp):
     if 'panic' in resp:
         return 'panicked: %s' % resp['panic']
+    if 'after' in resp:
+        if resp['after'] != resp['alone']:
+            return 'parsed after %r the input reports %r, parsed alone %r' % (bytes.fromhex(v['case']['first']), resp['after'].get('ok', resp['after']), resp['alone'].get('ok', resp['alone']))
+        return None
     if 'ok' not in resp:
         return None
     o = resp['ok']
